@@ -33,6 +33,7 @@ fn run_line(prop: &str, args: &[&str]) -> String {
         "C07" if args[0] == "st" => conn::run(args),
         "C07" => wire::run(args),
         "C12" => sess::run12(args),
+        "C15" if args[0] == "dec" => bcodec::run16(args),
         "C15" => bcodec::run15(args),
         "C16" => bcodec::run16(args),
         "C13" if args[0] == "hist" => sess::run12(args),
